@@ -116,4 +116,18 @@ PLANS["C06"] = dict(
                  "alphabet {a,b,c,blank} plus 1 when a terminal mentions digits; length bound 5 (quick) / 6 (thorough), exhaustive"],
     floor=dict(quick=30, thorough=200), exhaustive=False,
 )
+PLANS["C09"] = dict(
+    jobs=sharded("c09", "C09", 4800, 64000), replay=replay_with("c09", "C09"),
+    rule="one evaluation = one generated grammar text (alternatives, EMPTY, named/?= assignments, inline literals, ? * + with separators, meta-data on rules, productions and terminals) whose dumped grammar is compared "
+         "structurally with the generator's abstract grammar: one production per alternative with its symbols in order, inline literal -> declared terminal, first rule = start, production meta-data else rule meta-data "
+         "(priority, associativity, nops, nopse, kind, user keys), assignment names and ?= flags, helper rules shaped as documented and shared exactly by identical uses, nothing else in the grammar; "
+         "for grammars whose documented expansion is in GLR scope the accepted language (all strings up to the bound) equals the Earley language of the expansion; a syntax error on generated (valid) text is a violation. "
+         "non-trivial = distinct grammar using sugar, rule-level meta-data, inline literals or assignments",
+    assumptions=["terminals are single-letter string literals", "user rule names never collide with helper names (A1, A0, AOpt)",
+                 "fence of listed finding sep-helper-name: all + / * uses of one symbol carry the same separator setting",
+                 "fence of listed finding boolconst-false: the word `false` is never written in a grammar text",
+                 "the `nops` the book writes on `A0: A1` is not judged (it does not change the language of the expansion)",
+                 "language comparison strips meta-data (priorities legitimately remove parses) and is skipped when the expansion is cyclic or epsilon-ambiguous"],
+    floor=dict(quick=100, thorough=1000),
+)
 NOT_CLAIMED = {}
